@@ -300,6 +300,54 @@ macro_rules! wide_probe {
     };
 }
 
+async fn probe_wide(addr: SocketAddr, registered: &BTreeSet<u8>, step: &str, n: u32) -> Result<(), crate::core::Fail> {
+    let channel = Channel::connect(addr);
+    let mut out: Vec<(u8, u8, Result<Tag, Status>)> = vec![];
+    wide_probe!(out, channel, W0, 10, M0, 0, n);
+    wide_probe!(out, channel, W0, 10, M1, 1, n);
+    wide_probe!(out, channel, W0, 10, M2, 2, n);
+    wide_probe!(out, channel, W0, 10, M3, 3, n);
+    wide_probe!(out, channel, W1, 11, M0, 0, n);
+    wide_probe!(out, channel, W2, 12, M1, 1, n);
+    wide_probe!(out, channel, W2, 12, M2, 2, n);
+    wide_probe!(out, channel, W3, 13, M3, 3, n);
+    wide_probe!(out, channel, W4, 14, M0, 0, n);
+    wide_probe!(out, channel, W4, 14, M2, 2, n);
+    wide_probe!(out, channel, W4, 14, M3, 3, n);
+    wide_probe!(out, channel, W5, 15, M1, 1, n);
+    for (svc_tag, msg_tag, res) in out {
+        let want = registered.contains(&svc_tag);
+        match res {
+            Ok(tag) => {
+                ensure!(want, "served-while-unregistered", "{step}: message M{msg_tag} of W{} served by {:?} although it is not registered (registered: {:?})", svc_tag - 10, tag, registered);
+                ensure!(tag == Tag(svc_tag, msg_tag, n), "served-by-wrong-handler", "{step}: message M{msg_tag} sent to W{} answered by {:?}", svc_tag - 10, tag);
+            },
+            Err(status) => {
+                ensure!(!want, "refused-while-registered", "{step}: message M{msg_tag} of W{} refused ({:?}) although it is registered (registered: {:?})", svc_tag - 10, status, registered);
+                ensure!(status.code == ErrorCode::ServiceUnavailable, "wrong-refusal-code", "{step}: unregistered W{} refused with {:?}", svc_tag - 10, status);
+            },
+        }
+    }
+    Ok(())
+}
+
+fn apply_wide(server: &Server, add: bool, svc: u8) {
+    match (add, svc) {
+        (true, 0) => server.add_service(W0),
+        (true, 1) => server.add_service(W1),
+        (true, 2) => server.add_service(W2),
+        (true, 3) => server.add_service(W3),
+        (true, 4) => server.add_service(W4),
+        (true, _) => server.add_service(W5),
+        (false, 0) => server.remove_service(<W0 as RpcService>::service_name()),
+        (false, 1) => server.remove_service(<W1 as RpcService>::service_name()),
+        (false, 2) => server.remove_service(<W2 as RpcService>::service_name()),
+        (false, 3) => server.remove_service(<W3 as RpcService>::service_name()),
+        (false, 4) => server.remove_service(<W4 as RpcService>::service_name()),
+        (false, _) => server.remove_service(<W5 as RpcService>::service_name()),
+    }
+}
+
 async fn run_wide(case: &Case) -> Outcome {
     let addr: SocketAddr = ([10, 3, 0, 2], 7000).into();
     let server = Server::listen(addr).await.expect("listen");
@@ -330,35 +378,8 @@ async fn run_wide(case: &Case) -> Outcome {
             }
             registered.remove(&(10 + svc));
         }
-        let channel = Channel::connect(addr);
-        let n = i as u32 + 1;
-        let mut out: Vec<(u8, u8, Result<Tag, Status>)> = vec![];
-        wide_probe!(out, channel, W0, 10, M0, 0, n);
-        wide_probe!(out, channel, W0, 10, M1, 1, n);
-        wide_probe!(out, channel, W0, 10, M2, 2, n);
-        wide_probe!(out, channel, W0, 10, M3, 3, n);
-        wide_probe!(out, channel, W1, 11, M0, 0, n);
-        wide_probe!(out, channel, W2, 12, M1, 1, n);
-        wide_probe!(out, channel, W2, 12, M2, 2, n);
-        wide_probe!(out, channel, W3, 13, M3, 3, n);
-        wide_probe!(out, channel, W4, 14, M0, 0, n);
-        wide_probe!(out, channel, W4, 14, M2, 2, n);
-        wide_probe!(out, channel, W4, 14, M3, 3, n);
-        wide_probe!(out, channel, W5, 15, M1, 1, n);
         let step = format!("after step {i} ({} W{})", if add { "add" } else { "remove" }, svc);
-        for (svc_tag, msg_tag, res) in out {
-            let want = registered.contains(&svc_tag);
-            match res {
-                Ok(tag) => {
-                    ensure!(want, "served-while-unregistered", "{step}: message M{msg_tag} of W{} served by {:?} although it is not registered (registered: {:?})", svc_tag - 10, tag, registered);
-                    ensure!(tag == Tag(svc_tag, msg_tag, n), "served-by-wrong-handler", "{step}: message M{msg_tag} sent to W{} answered by {:?}", svc_tag - 10, tag);
-                },
-                Err(status) => {
-                    ensure!(!want, "refused-while-registered", "{step}: message M{msg_tag} of W{} refused ({:?}) although it is registered (registered: {:?})", svc_tag - 10, status, registered);
-                    ensure!(status.code == ErrorCode::ServiceUnavailable, "wrong-refusal-code", "{step}: unregistered W{} refused with {:?}", svc_tag - 10, status);
-                },
-            }
-        }
+        probe_wide(addr, &registered, &step, i as u32 + 1).await?;
     }
     datacake_rpc::verif::unregister(addr);
     server.shutdown();
@@ -404,8 +425,112 @@ impl Prop for Wide {
     }
 }
 
+
+// ---------------------------------------------------------------------------------------
+// Part `concurrent-mutations`: the server's API takes `&self`, services are added and removed from several
+// threads of a running node.  Threads own disjoint services, so whatever the interleaving the state after a
+// round is known: every service is registered iff its owner's last operation on it was an add.
+
+#[derive(Debug, Clone)]
+pub struct ConcCase {
+    /// per round, per thread: (add?, service) operations; thread t only touches services with svc % threads == t
+    pub rounds: Vec<Vec<Vec<(bool, u8)>>>,
+}
+
+pub struct Concurrent;
+
+impl Prop for Concurrent {
+    type Case = ConcCase;
+
+    fn id(&self) -> &'static str {
+        "C13"
+    }
+
+    fn part(&self) -> &'static str {
+        "concurrent-mutations"
+    }
+
+    fn width(&self) -> usize {
+        30 * 3 * 4 * 2 + 8
+    }
+
+    fn shrink_budget(&self) -> usize {
+        40
+    }
+
+    fn gen(&self, src: &mut Src) -> ConcCase {
+        let threads = 2 + src.below(2);
+        let n_rounds = 10 + src.below(21);
+        let rounds = (0..n_rounds)
+            .map(|_| {
+                (0..threads)
+                    .map(|t| {
+                        let own: Vec<u8> = (0..6u8).filter(|s| *s as usize % threads == t).collect();
+                        (0..1 + src.below(3)).map(|_| (src.chance(1, 2), own[src.below(own.len())])).collect()
+                    })
+                    .collect()
+            })
+            .collect();
+        ConcCase { rounds }
+    }
+
+    fn run(&self, case: &ConcCase) -> Outcome {
+        e3::sim(1, 70_000_000, Default::default(), |_net| async move {
+            let addr: SocketAddr = ([10, 3, 0, 3], 7000).into();
+            let server = Server::listen(addr).await.expect("listen");
+            let mut registered: BTreeSet<u8> = BTreeSet::new();
+            let mut overlapping = 0usize;
+            for (r, round) in case.rounds.iter().enumerate() {
+                let barrier = std::sync::Barrier::new(round.len());
+                std::thread::scope(|scope| {
+                    for ops in round {
+                        let server = &server;
+                        let barrier = &barrier;
+                        scope.spawn(move || {
+                            barrier.wait();
+                            for (add, svc) in ops {
+                                apply_wide(server, *add, *svc);
+                            }
+                        });
+                    }
+                });
+                for ops in round {
+                    for (add, svc) in ops {
+                        if *add {
+                            registered.insert(10 + svc);
+                        } else {
+                            registered.remove(&(10 + svc));
+                        }
+                    }
+                }
+                if round.iter().filter(|o| !o.is_empty()).count() >= 2 {
+                    overlapping += 1;
+                }
+                let step = format!("after round {r} (threads ran {:?} concurrently)", round);
+                probe_wide(addr, &registered, &step, r as u32 + 1).await?;
+            }
+            datacake_rpc::verif::unregister(addr);
+            server.shutdown();
+            Ok(Pass { nontrivial: overlapping >= 5, labels: vec![] })
+        })
+    }
+
+    fn describe(&self, case: &ConcCase) -> Value {
+        json!({ "rounds_of_per_thread_operations_(add?,service)": case.rounds })
+    }
+
+    fn rule(&self) -> &'static str {
+        "the six services of part many-services; 10-30 rounds in which 2-3 OS threads, released together by a barrier, \
+         each run 1-3 add/remove operations on services only they own, against one running server; after every round \
+         all twelve (service,message) pairs are probed; oracle: a service is served iff its owner's last operation on it \
+         was an add (the outcome does not depend on the interleaving because owners are disjoint), refusals are \
+         unknown-service; OS schedules are sampled, not enumerated; non-trivial = >= 5 rounds with >= 2 active threads"
+    }
+}
+
 pub fn parts_all() -> Vec<Box<dyn DynPart>> {
     let mut p = parts();
     p.push(Box::new(Gen::new(Wide, 20_000, 500_000)));
+    p.push(Box::new(Gen::new(Concurrent, 1_600, 50_000)));
     p
 }
